@@ -132,6 +132,19 @@ func buildCache(sc *Scenario) (world, error) {
 	w.clean = job.Func
 	w.onBlock = evp.handlers["block"][0]
 	w.onHead = evp.handlers["head"][0]
+	// Other blocks of the retention window (64 epochs of 32 slots are some 2 000
+	// entries in production): roots outside the universe, never looked up, slots
+	// spread over the window, so that a clean has work to do.
+	for i := uint64(0); i < sc.P["fill"]; i++ {
+		var r [32]byte
+		r[0], r[1], r[2], r[31] = 0xfe, byte(i>>8), byte(i), 0xc2
+		epoch := sc.P["epoch"] + 19*sc.P["estep"]
+		slot := uint64(0)
+		if span := (epoch + 1) * w.spe; span > 0 {
+			slot = (i * 7919) % span
+		}
+		svc.SetBlockRootToSlot(r, phase0.Slot(slot))
+	}
 	return w, nil
 }
 
@@ -304,20 +317,21 @@ func init() {
 	register(&svcDef{
 		name:   "cache",
 		weight: 3,
-		reps:   20,
+		reps:   30,
 		roles: []roleDef{
 			{kind: "blockStream", max: 1, why: "cache's own block-event subscription", gen: genRootOps("block", 1, 6)},
 			{kind: "ctlBlock", max: 1, why: "controller's block-event subscription -> SetBlockRootToSlot", gen: genRootOps("set", 1, 6)},
 			{kind: "headStream", max: 1, why: "cache's head-event subscription", gen: genRootOps("head", 1, 4)},
 			{kind: "lookup", max: 3, why: "BlockRootToSlot from attestation jobs / per-node strategy goroutines", gen: genRootOps("lookup", 1, 8)},
 			{kind: "execHead", max: 2, why: "ExecutionChainHead from proposal jobs", gen: fixed("exec", 1, 4)},
-			{kind: "clean", max: 1, why: "periodic job 'Clean block root to slot cache'", gen: fixed("clean", 1, 3)},
+			{kind: "clean", max: 1, why: "periodic job 'Clean block root to slot cache'", gen: fixed("clean", 1, 6)},
 		},
 		params: func(t *rapid.T) map[string]uint64 {
 			p := map[string]uint64{}
 			p["spe"] = rapid.SampledFrom([]uint64{2, 8, 32}).Draw(t, "spe")
 			p["epoch"] = rapid.SampledFrom([]uint64{0, 60, 64, 65, 70, 200}).Draw(t, "epoch")
 			p["estep"] = rapid.SampledFrom([]uint64{0, 1, 1, 3, 20}).Draw(t, "estep")
+			p["fill"] = rapid.SampledFrom([]uint64{0, 300, 3000}).Draw(t, "fill")
 			n := rapid.Uint64Range(1, 6).Draw(t, "nRoots")
 			p["n"] = n
 			p["fail"] = rapid.Uint64Range(0, (1<<n)-1).Draw(t, "failMask")
